@@ -50,7 +50,7 @@ type C13Op struct {
 	FailAt   int    `json:"fail_at,omitempty"`
 }
 
-var c13Providers = []string{"pool", "bounded0", "bounded1", "bounded4", "custom"}
+var c13Providers = []string{"pool", "bounded0", "bounded1", "bounded4", "bounded1-3", "custom"}
 
 // customProvider is a trivial third-party provider: always new objects, releases are dropped.
 type customProvider struct{}
@@ -289,7 +289,8 @@ func checkC13Conc(c C13ConcCase) (vs []*Violation) {
 	var inner restful.CompressorProvider
 	switch c.Provider {
 	case "bounded":
-		inner = restful.NewBoundedCachedCompressors(c.Capacity, c.Capacity)
+		// (the reader cache is one smaller or larger in two of three cases)
+		inner = restful.NewBoundedCachedCompressors(c.Capacity, max(0, c.Capacity+(c.N%3)-1))
 	case "custom":
 		inner = customProvider{}
 	default:
@@ -440,6 +441,9 @@ type C13ReleaseCase struct {
 	// Mode "acquire": G goroutines acquire at the same moment from a cache that holds Free objects
 	// (Free is then the number of cached objects, not of free slots); default: simultaneous releases
 	Mode string `json:"mode,omitempty"`
+	// Readers: capacity of the reader cache when it differs from Capacity (the constructor takes
+	// the two separately); -1 = same as Capacity
+	Readers int `json:"readers"`
 }
 
 func genC13Release(t *rapid.T) C13ReleaseCase {
@@ -451,13 +455,40 @@ func genC13Release(t *rapid.T) C13ReleaseCase {
 	if rapid.IntRange(0, 2).Draw(t, "mode") == 0 {
 		c.Mode = "acquire"
 	}
+	c.Readers = -1
+	if rapid.Bool().Draw(t, "asymmetric") {
+		c.Readers = rapid.IntRange(0, 8).Draw(t, "readers")
+	}
 	return c
 }
 
 func checkC13Release(c C13ReleaseCase) (vs []*Violation) {
 	st := stats.For("C13", "TestC13Release")
 	defer harness.ResetGlobals()
-	b := restful.NewBoundedCachedCompressors(c.Capacity, c.Capacity)
+	wcap, rcap := c.Capacity, c.Capacity
+	if c.Readers >= 0 {
+		// writer and reader caches of different size; the burst works on the kind under test
+		if c.Kind == "gzipr" {
+			wcap = c.Readers
+		} else {
+			rcap = c.Readers
+		}
+	}
+	var b *restful.BoundedCachedCompressors
+	built := make(chan struct{})
+	go func() { b = restful.NewBoundedCachedCompressors(wcap, rcap); close(built) }()
+	select {
+	case <-built:
+	case <-time.After(20 * time.Second):
+		buf := make([]byte, 1<<20)
+		buf = buf[:runtime.Stack(buf, true)]
+		if strings.Contains(string(buf), "NewBoundedCachedCompressors") && strings.Contains(string(buf), "chan send") {
+			st.Case(c, true, "kind_"+c.Kind, "constructor_blocked")
+			return []*Violation{viol("", "NewBoundedCachedCompressors(%d, %d) does not return: a goroutine is parked in a channel send inside the constructor", wcap, rcap)}
+		}
+		inconclusive("C13", "TestC13Release", "NewBoundedCachedCompressors did not return within 20s")
+		return nil
+	}
 	acquire := func() interface{} {
 		switch c.Kind {
 		case "gzipw":
